@@ -759,9 +759,11 @@ def basic_discrete_SIR(G, p, initial_infecteds=None,
 
 '''
 
-    return discrete_SIR(G, _simple_test_transmission_, (p,), 
-                                    initial_infecteds, initial_recovereds, 
-                                    rho, tmin, tmax, return_full_data, sim_kwargs=sim_kwargs)
+    return discrete_SIR(G, test_transmission=_simple_test_transmission_, args=(p,), 
+                                    initial_infecteds=initial_infecteds, 
+                                    initial_recovereds=initial_recovereds, 
+                                    rho=rho, tmin=tmin, tmax=tmax, 
+                                    return_full_data=return_full_data, sim_kwargs=sim_kwargs)
 
 def basic_discrete_SIS(G, p, initial_infecteds=None, rho = None,
                                 tmin = 0, tmax = 100, return_full_data = False, 
